@@ -373,3 +373,19 @@ package pegnet
 //@   modifies LmetaSynced, LmetaPresent, LsyncPresent, LsyncVer
 //@   ensures !isRejectErr(result)
 //@   ensures result == nil ==> LmetaSynced == bs.Synced && LmetaPresent && !old(LsyncPresent)[bs.Synced] && LsyncPresent[bs.Synced] && LsyncVer[bs.Synced] == PegnetdSyncVersion
+//@
+//@ func (*Pegnet).InsertDeveloperRewardCoinbase
+//@   trusted
+//@   pure
+//@   ensures !isRejectErr(result)
+//@
+//@ func (*Pegnet).InsertZeroingCoinbase
+//@   trusted
+//@   pure
+//@   ensures !isRejectErr(result)
+//@
+//@ func (*Pegnet).SelectBalances
+//@   trusted
+//@   pure
+//@   ensures err == nil ==> result != nil && fresh(result) && (forall t fat2.PTicker :: validTicker(t) ==> dom(result)[t] && vals(result)[t] == Lbal[*adr][t])
+//@   ensures !isRejectErr(err)
